@@ -13,6 +13,10 @@ def configs(tier, seed):
             if tier == "quick" and n == 4 and branch == "fn":
                 continue
             cfgs.append(dict(kind="arcs", n=n, k=k, branch=branch, weight=13 ** n * k, wstride=13 if n <= 3 else 499))
+    # samples that stand for permuted / shifted rows of a larger pre-computed matrix (Node.idx != position)
+    for n, k, rows in ([(3, 2, [3, 1, 2]), (3, 1, [2, 0, 3])] if tier == "quick" else [(3, 2, [3, 1, 2]), (3, 1, [2, 0, 3]), (4, 2, [4, 2, 0, 3])]):
+        for branch in ("pre", "fn"):
+            cfgs.append(dict(kind="arcs", n=n, k=k, branch=branch, idx=rows, weight=13 ** n * k, wstride=13))
     # histories of two calls on the same graph (create, destroy, create)
     hist = [(2, 1, 1), (3, 2, 1), (3, 1, 2), (3, 2, 2)] if tier == "quick" else \
            [(2, 1, 1), (3, 2, 1), (3, 1, 2), (3, 2, 2), (3, 3, 1), (4, 2, 1), (4, 1, 2)]
